@@ -417,7 +417,7 @@ Definition ref_step (limit now' : N) (rf : ref) (o : op) (fo : option (bool * li
   end.
 
 (* the three statements, evaluated after one operation: rf before, rf' after, status (tm, act) *)
-Definition check (mad : N) (rf rf' : ref) (o : op) (fo : option (bool * list (N * N))) (tm act : Z) : bool :=
+Definition check (mad now' : N) (rf rf' : ref) (o : op) (fo : option (bool * list (N * N))) (tm act : Z) : bool :=
   (match o with
    | OProc _ pn fl =>
        (* immediate_on_reorder: not the successor of the largest number still tracked, or CE marked *)
@@ -429,6 +429,13 @@ Definition check (mad : N) (rf rf' : ref) (o : op) (fo : option (bool * list (N 
        match fo with
        | Some (_, rl) => forallb (fun r => range_processed (fst r) (snd r) (procd rf)) rl
        | None => true
+       end
+   | OTimeout _ =>
+       (* a timeout at or after the deadline of an owed packet makes the manager demand a transmission:
+          the timer it still reports lies in the future *)
+       match min_arrival (pend rf') with
+       | None => true
+       | Some _ => (act =? 1)%Z || (Nz now' <? tm)%Z
        end
    | _ => true
    end)
@@ -466,7 +473,7 @@ Fixpoint judge_from (mad limit now : N) (rf : ref) (ops : list op) (out : list Z
       | Some (fo, tm, act, r) =>
           let now' := op_time now o in
           let rf' := ref_step limit now' rf o fo in
-          check mad rf rf' o fo tm act && judge_from mad limit now' rf' t r
+          check mad now' rf rf' o fo tm act && judge_from mad limit now' rf' t r
       end
   end.
 
